@@ -28,6 +28,10 @@ MANIFEST = dict(
           "as its own out= target - in every payload family. NaN axis: a solver family puts an unordered, absorbing NaN element at "
           "enumerated positions of every payload array and keeps the other elements z3 reals (A13: decided for all finite values; NumPy's "
           "object-dtype semantics of NaN); the typed family runs NaN / inf / -0.0 value sets through the real float kernels (enumeration). "
+          "Spelling axis: every template is re-issued, in both runs, with each NumPy call bound to NumPy's public signature and re-spelled "
+          "all-positional (gaps filled with NumPy's defaults) and all-keyword (but the first argument), plus 47 call forms that give two "
+          "neighbouring optional arguments different symbolic values. Stack axis: linalg.solve over 19 pairs of operand shapes, 16 LAPACK / "
+          "matrix functions over stacks of matrices, the matmul family over 7 stacked / broadcast shape pairs. "
           "Bounded: catalogue of templates, shapes <= (2,3)/(2,2,2); IEEE rounding, integer wrap-around and "
           "complex payloads beyond the typed table are outside."),
     design="DESIGN.md section 4 C06",
@@ -64,14 +68,32 @@ EXPLANATION = (
     "unordered and absorbing (A13), so x == x is no longer a theorem: np.array_equal(a, a) must answer False. isclose / allclose are the "
     "A4 formula models extended by NumPy's NaN rule (never close; close to another NaN under equal_nan=True). Sorted / bounded / patterned "
     "payloads (preconditions of the call) stay finite. Paths on which a NaN reaches an operation that needs a z3 term or a float kernel "
-    "are cut and counted.")
+    "are cut and counted. "
+    "C06/spell/<pos|kw>/<template>: the SPELLING of a call is a discrete axis derived mechanically: the numpy namespace handed to the template "
+    "binds every call of a dispatched function to NumPy's own signature and re-issues it (quantity run and stripped run alike) with every "
+    "argument NumPy accepts positionally passed positionally, gaps up to the last given one filled with NumPy's defaults (`pos`), or with every "
+    "argument but the first passed by keyword (`kw`); a case exists where that differs from the template's own spelling. A handler "
+    "(a, *args, **kwargs) that re-binds args by name in another order than NumPy, reads only kwargs, or only args, is run on the spelling it "
+    "mishandles; the values stay symbols, so swapped arguments are different numbers. C06/args/*: call forms with two neighbouring optional "
+    "arguments of one kind both given (to_end / to_begin, prepend / append, x / dx, axis1 / axis2, source / destination, shift / axis, "
+    "axis / out, n / axis, axisa / axisb ...), as written and in every other spelling. "
+    "C06/stack/*: stacked and broadcast operands. np.linalg.solve over (a shape, b shape) pairs - b 1-d, b.ndim == a.ndim - 1 (NumPy >= 2: a "
+    "stack of matrices, or refused), column stacks, broadcast stacks, b a quantity or bare; det / inv / pinv / eig / eigh / eigvals / eigvalsh "
+    "/ svd / norm / matrix_norm / matrix_transpose / trace / diagonal / tensorinv (matrix_power: typed buffers only) over stacks (2,2,2), "
+    "(1,2,2), (3,2,2), (2,1,2,2); matmul / @ / linalg.matmul / vecdot / linalg.vecdot / dot / inner / tensordot / multi_dot / einsum over "
+    "stacked x broadcast shape pairs. The uninterpreted kernel functions are indexed by routine, bound arguments and payload shapes: a handler "
+    "that adds / drops an axis before forwarding applies a different function and returns a different shape. The typed family runs the "
+    "C06/args and C06/stack templates through the real LAPACK / object kernels on the value table.")
 BOUNDS = {
     "quick": "the `quick` subset of the template catalogue (one or two forms per function), shapes (), (2,), (3,), (2,2), (2,3); rank sweep: "
              "rank pairs with a 0-d operand x all operand kinds; rounding: 11 of 32 decimals x form templates. Integer family: every Tier-1 "
              "template of this subset except np.unwrap, declared int64, all integers (solver). Typed family (ENUMERATION): every template x {int64, uint16, float32, "
              "complex128} x 2 value sets of a 28-entry table, float32 / complex128 again x 2 non-finite value sets (nan0, inf). Aliasing: every "
              "two-operand form x `same` on 1-d operands, 10 validating / joining forms also x `same` on 0-d and 2-d and x `view`, `rev` on 1-d; "
-             "out= aliasing forms on one rank. NaN family (solver): every Tier-1 template of this subset x mask n0",
+             "out= aliasing forms on one rank. NaN family (solver): every Tier-1 template of this subset x mask n0. Spelling: every template of "
+             "the subset (not the rank / alias / rounding / stack families) and 38 of the 47 two-neighbour call forms x {pos, kw} where the spelling "
+             "differs; stack: 8 of 19 solve shape pairs (x quantity / bare b), 15 matrix functions x stacks (2,2,2), (1,2,2), the matmul family x 3 "
+             "of 7 shape pairs",
     "thorough": "the full template catalogue: positional / keyword / out= variants, equal and ragged extents, plus a shape x axis sweep of 25 "
                 "single-operand functions over (), (1,), (0,), (2,3), (3,2), (1,2), (2,2,2); sorting-type functions with axis=None only up to 3 "
                 "elements; rank sweep: all 9 rank pairs x all kinds (sorting-type functions: <= 3 elements); all 32 rounding templates. Integer "
@@ -79,9 +101,13 @@ BOUNDS = {
                 "float32, float64, complex64, complex128} x 4 value sets, the four float / complex dtypes again x 4 non-finite value sets. "
                 "Aliasing: 59 two-operand forms x 5 relations x ranks 0-d / 1-d / 2-d (sorting-type functions: <= 3 elements, no 2-d), 17 out= "
                 "aliasing forms x ranks. NaN family (solver): every Tier-1 template except the shape x axis sweep x masks n0, nl and (templates "
-                "with >= 2 operands) na, nb",
+                "with >= 2 operands) na, nb. Spelling: every template of the catalogue (not the rank / alias / sweep / rounding / stack families) and all "
+                "47 two-neighbour call forms x {pos, kw}; stack: all 19 solve shape pairs, 15 matrix functions x 4 stack shapes, the matmul family "
+                "x 7 shape pairs",
 }
-OUTSIDE = ("IEEE rounding (A1); NaN only as an unordered, absorbing element at enumerated positions (A13: where NumPy's float kernels special-case "
+OUTSIDE = ("spellings other than the template's own, all-positional and all-keyword-but-first (mixed splits, the first operand by keyword, "
+           "keyword ORDER); spellings of ndarray METHOD calls (C builtins without a signature); the spelling / stack templates are not repeated "
+           "in the integer and NaN families; matrices larger than 2x2 in stacks, stack rank > 2; IEEE rounding (A1); NaN only as an unordered, absorbing element at enumerated positions (A13: where NumPy's float kernels special-case "
            "NaN - sort order, maximum/minimum, unique, isnan-based code such as array_equal(equal_nan=True) and the nan-functions - only the typed "
            "table sees the real behaviour), inf and -0.0 only in the typed table; relations between arguments beyond the six walked "
            "(partially overlapping slices, broadcast views, aliasing among three or more operands); integer wrap-around and the dtype WIDTH of results (only the dtype kind is compared, in the typed family); "
@@ -881,12 +907,297 @@ def make_nan_case(t, mask):
     return c
 
 
+# ----------------------------------------------------------------------------------------------------------- argument spelling
+# Every template above fixes ONE spelling of its call (which arguments are positional, which are keywords). A handler with the
+# signature (a, *args, **kwargs) that re-binds `args` by name, reads `kwargs.get("axis")` only, or takes args[0] for some parameter
+# is wrong for one spelling and right for the other. The spelling is a discrete axis that is derived MECHANICALLY here: the numpy
+# namespace handed to a template is wrapped so that every call of an __array_function__-dispatched function is bound to NumPy's own
+# public signature and re-issued, in the quantity run AND in the stripped run, as
+#   pos: every argument NumPy accepts positionally IS passed positionally (gaps up to the last given one filled with NumPy's defaults),
+#   kw : every argument but the first that NumPy accepts by keyword IS passed by keyword.
+# A spelling case exists for a template iff the re-issued call differs from the template's own spelling (decided by a dry run on
+# float buffers at case-generation time). Values stay symbolic, so two neighbouring optional arguments hold different numbers.
+SPELLINGS = ("pos", "kw")
+_SIGS = {}
+
+
+def _signature(real):
+    if real not in _SIGS:
+        import inspect
+        try:
+            _SIGS[real] = inspect.signature(real)
+        except (TypeError, ValueError):
+            _SIGS[real] = None
+    return _SIGS[real]
+
+
+def respell(sig, args, kwargs, mode):
+    """the same call in spelling `mode` -> (args, kwargs), or None where the spelling does not apply / changes nothing"""
+    if sig is None:
+        return None
+    params = list(sig.parameters.values())
+    if any(p.kind is p.VAR_POSITIONAL for p in params):
+        return None
+    try:
+        given = sig.bind(*args, **kwargs).arguments
+    except TypeError:
+        return None
+    pk = [p for p in params if p.kind in (p.POSITIONAL_ONLY, p.POSITIONAL_OR_KEYWORD)]
+    new_kwargs = {}
+    for p in params:
+        if p.kind is p.VAR_KEYWORD and p.name in given:
+            new_kwargs.update(given[p.name])
+        elif p.kind is p.KEYWORD_ONLY and p.name in given:
+            new_kwargs[p.name] = given[p.name]
+    new_args = []
+    if mode == "pos":
+        last = max([i for i, p in enumerate(pk) if p.name in given], default=-1)
+        for p in pk[:last + 1]:
+            if p.name in given:
+                new_args.append(given[p.name])
+            elif p.default is not p.empty:
+                new_args.append(p.default)
+            else:
+                return None
+    else:
+        for i, p in enumerate(pk):
+            if p.name not in given:
+                continue
+            if p.kind is p.POSITIONAL_ONLY or i == 0:
+                new_args.append(given[p.name])
+            else:
+                new_kwargs[p.name] = given[p.name]
+    if len(new_args) == len(args) and set(new_kwargs) == set(kwargs):
+        return None
+    return tuple(new_args), new_kwargs
+
+
+class Respell:
+    """a numpy namespace (np, or the stripped run's BareNP) whose dispatched functions are called in another spelling"""
+
+    def __init__(self, ns, real, mode, log=None):
+        self._ns, self._real, self._mode, self._log = ns, real, mode, log
+
+    def __getattr__(self, k):
+        import inspect
+        v, r = getattr(self._ns, k), getattr(self._real, k)
+        if inspect.ismodule(r) and r.__name__.startswith("numpy"):
+            return Respell(v, r, self._mode, self._log)
+        if callable(r) and hasattr(r, "_implementation"):
+            sig, mode, log = _signature(r), self._mode, self._log
+
+            def f(*args, **kwargs):
+                new = respell(sig, args, kwargs, mode)
+                if log is not None:
+                    log.append((getattr(r, "__name__", k), new is not None))
+                if new is None:
+                    return v(*args, **kwargs)
+                return v(*new[0], **new[1])
+            return f
+        return v
+
+
+def spelling_changes(t, mode):
+    """dry run of the template on float buffers: does spelling `mode` re-issue any of its NumPy calls differently?"""
+    import warnings
+    log = []
+    E = TypedEnv(None, "bare", None, "float64", 0)
+    with warnings.catch_warnings(), np.errstate(all="ignore"):
+        warnings.simplefilter("ignore")
+        try:
+            t.fn(Respell(np, np, mode, log), E)
+        except (Exception, core.Unsupported):
+            pass
+    return any(ch for _, ch in log)
+
+
+def spelled(t, mode):
+    import copy
+    s = copy.copy(t)
+    s.name = f"spell/{mode}/{t.name}"
+    s.fn = lambda N, E, fn=t.fn: fn(Respell(N, np, mode), E)
+    s.conform = False
+    return s
+
+
+# neighbouring optional arguments of the same kind, BOTH given (a handler that binds them in the wrong order swaps two numbers) -
+# C06-only templates; each runs as written and in every spelling that differs from it
+_V = lambda E, n, s=(1,), g="L": E.q(n, g, s)
+PAIRS = [
+    ("np.ediff1d/both-kw", "numpy.ediff1d", lambda N, E: N.ediff1d(_V(E, "a", (3,)), to_end=_V(E, "b"), to_begin=_V(E, "c"))),
+    ("np.ediff1d/both-pos", "numpy.ediff1d", lambda N, E: N.ediff1d(_V(E, "a", (3,)), _V(E, "b"), _V(E, "c"))),
+    ("np.ediff1d/end-pos", "numpy.ediff1d", lambda N, E: N.ediff1d(_V(E, "a", (2,)), _V(E, "b", (2,)))),
+    ("np.ediff1d/both-num", "numpy.ediff1d", lambda N, E: N.ediff1d(_V(E, "a", (2,)), E.num("v", "L"), E.num("w", "L"))),
+    ("np.ediff1d/begin-kw-ragged", "numpy.ediff1d", lambda N, E: N.ediff1d(_V(E, "a", (2,)), to_begin=_V(E, "c", (2,)), to_end=_V(E, "b"))),
+    ("np.diff/both-kw", "numpy.diff", lambda N, E: N.diff(_V(E, "a", (2,)), prepend=_V(E, "b"), append=_V(E, "c"))),
+    ("np.diff/both-pos", "numpy.diff", lambda N, E: N.diff(_V(E, "a", (2,)), 1, -1, _V(E, "b"), _V(E, "c"))),
+    ("np.diff/n-axis-pos", "numpy.diff", lambda N, E: N.diff(_V(E, "a", (3, 2)), 2, 0)),
+    ("np.trapezoid/x-dx", "numpy.trapezoid", lambda N, E: N.trapezoid(_V(E, "a", (3,)), None, E.num("v", "T", pos=True))),
+    ("np.trapezoid/x-pos", "numpy.trapezoid", lambda N, E: N.trapezoid(_V(E, "a", (3,)), _V(E, "b", (3,), "T"))),
+    ("np.trapezoid/y-x-axis-kw", "numpy.trapezoid", lambda N, E: N.trapezoid(y=_V(E, "a", (2, 2)), x=_V(E, "b", (2,), "T"), axis=0)),
+    ("np.where/xy-ragged", "numpy.where", lambda N, E: N.where(np.array([True, False, True]), _V(E, "a", (3,)), _V(E, "b", ()))),
+    ("np.linspace/kw", "numpy.linspace", lambda N, E: N.linspace(start=_V(E, "a", ()), stop=_V(E, "b", ()), num=3)),
+    ("np.linspace/all-pos", "numpy.linspace", lambda N, E: N.linspace(_V(E, "a", ()), _V(E, "b", ()), 3, False, True)),
+    ("np.insert/kw", "numpy.insert", lambda N, E: N.insert(_V(E, "a", (3,)), obj=1, values=_V(E, "b", ()))),
+    ("np.insert/axis-pos", "numpy.insert", lambda N, E: N.insert(_V(E, "a", (2, 2)), 0, _V(E, "b", (2,)), 1)),
+    ("np.trace/all-pos", "numpy.trace", lambda N, E: N.trace(_V(E, "a", (2, 3, 2)), 1, 2, 1)),
+    ("np.diagonal/all-pos", "numpy.diagonal", lambda N, E: N.diagonal(_V(E, "a", (2, 3, 2)), -1, 1, 2)),
+    ("np.diagonal/kw", "numpy.diagonal", lambda N, E: N.diagonal(_V(E, "a", (2, 3, 2)), axis1=2, axis2=1)),
+    ("np.swapaxes/kw", "numpy.swapaxes", lambda N, E: N.swapaxes(_V(E, "a", (1, 2, 3)), axis1=2, axis2=0)),
+    ("np.moveaxis/kw", "numpy.moveaxis", lambda N, E: N.moveaxis(_V(E, "a", (1, 2, 3)), source=0, destination=2)),
+    ("np.rollaxis/start", "numpy.rollaxis", lambda N, E: N.rollaxis(_V(E, "a", (1, 2, 3)), 2, 1)),
+    ("np.roll/shift-axis-pos", "numpy.roll", lambda N, E: N.roll(_V(E, "a", (2, 3)), 1, 1)),
+    ("np.take/axis-pos", "numpy.take", lambda N, E: N.take(_V(E, "a", (2, 3)), [1, 0], 1)),
+    ("np.take/kw", "numpy.take", lambda N, E: N.take(_V(E, "a", (2, 3)), indices=[2, 0], axis=1)),
+    ("np.repeat/axis-pos", "numpy.repeat", lambda N, E: N.repeat(_V(E, "a", (2, 2)), 2, 1)),
+    ("np.cumsum/axis-pos", "numpy.cumsum", lambda N, E: N.cumsum(_V(E, "a", (2, 2)), 1)),
+    ("np.sum/axis-out-pos", "numpy.sum", lambda N, E: N.sum(_V(E, "a", (2, 3)), 1, None, E.out("o", "L", (2,)))),
+    ("np.mean/axis-keepdims", "numpy.mean", lambda N, E: N.mean(_V(E, "a", (2, 3)), 0, None, None, True)),
+    ("np.std/ddof-pos", "numpy.std", lambda N, E: N.std(_V(E, "a", (3,)), None, None, None, 1)),
+    ("np.var/axis-ddof-kw", "numpy.var", lambda N, E: N.var(_V(E, "a", (2, 2)), axis=1, ddof=1)),
+    ("np.percentile/axis-pos", "numpy.percentile", lambda N, E: N.percentile(_V(E, "a", (2, 2)), 50, 1)),
+    ("np.clip/pos-out", "numpy.clip", lambda N, E: N.clip(_V(E, "a", (2,)), _V(E, "b", ()), _V(E, "c", ()), E.out("o", "L", (2,)))),
+    ("np.around/out-pos", "numpy.around", lambda N, E: N.around(_V(E, "a", (2,)), 1, E.out("o", "L", (2,)))),
+    ("np.stack/axis-out", "numpy.stack", lambda N, E: N.stack([_V(E, "a", (2,)), _V(E, "b", (2,))], 1, E.out("o", "L", (2, 2)))),
+    ("np.concatenate/axis-out-pos", "numpy.concatenate", lambda N, E: N.concatenate([_V(E, "a", (2, 1)), _V(E, "b", (2, 2))], 1, E.out("o", "L", (2, 3)))),
+    ("np.append/axis-pos", "numpy.append", lambda N, E: N.append(_V(E, "a", (2, 1)), _V(E, "b", (2, 2)), 1)),
+    ("np.tensordot/axes-pos", "numpy.tensordot", lambda N, E: N.tensordot(_V(E, "a", (2, 3)), _V(E, "b", (3, 2), "T"), 1)),
+    ("np.cross/axes-pos", "numpy.cross", lambda N, E: N.cross(_V(E, "a", (3, 1)), _V(E, "b", (1, 3), "T"), 0, 1)),
+    ("np.convolve/mode-pos", "numpy.convolve", lambda N, E: N.convolve(_V(E, "a", (3,)), _V(E, "b", (2,), "T"), "valid")),
+    ("np.correlate/mode-kw", "numpy.correlate", lambda N, E: N.correlate(_V(E, "a", (3,)), v=_V(E, "b", (2,), "T"), mode="same")),
+    ("np.searchsorted/side-pos", "numpy.searchsorted", lambda N, E: N.searchsorted(E.q("a", "L", (2,), increasing=True), _V(E, "b", ()), "right")),
+    ("np.array_equal/kw", "numpy.array_equal", lambda N, E: N.array_equal(a1=_V(E, "a", (2,)), a2=_V(E, "b", (2,)))),
+    ("np.fft.fft/n-axis-pos", "numpy.fft.fft", lambda N, E: N.fft.fft(E.q("a", "L", pattern=[[1, 2, 0], [0, 1, 3]]), 2, 0), 2),
+    ("np.fft.ifft/n-kw", "numpy.fft.ifft", lambda N, E: N.fft.ifft(a=E.q("a", "L", pattern=[1, 2, 0, 1]), n=3), 2),
+    ("np.fft.fftshift/axes-pos", "numpy.fft.fftshift", lambda N, E: N.fft.fftshift(_V(E, "a", (2, 3)), 1)),
+    ("np.fft.ifftshift/axes-kw", "numpy.fft.ifftshift", lambda N, E: N.fft.ifftshift(x=_V(E, "a", (2, 3)), axes=0)),
+]
+_PAIRS_QUICK_OFF = ("np.percentile/axis-pos", "np.std/ddof-pos", "np.rollaxis/start", "np.repeat/axis-pos", "np.moveaxis/kw", "np.take/kw",
+                    "np.diagonal/kw", "np.insert/kw", "np.linspace/kw")
+
+
+def pair_templates(tier):
+    out = []
+    for row in PAIRS:
+        name, key, fn = row[:3]
+        if tier == "quick" and name in _PAIRS_QUICK_OFF:
+            continue
+        out.append(Tpl("args/" + name, key, fn, groups=("L", "T"), c07=False, tier=(row[3] if len(row) > 3 else 1), max_paths=400))
+    return out
+
+
+# ----------------------------------------------------------------------------------------------------------- stacked / broadcast operands
+# The LAPACK-backed handlers and the matmul family take STACKS of matrices and broadcast the stack axes; NumPy decides from the operand
+# ranks which computation that is (solve: b is ONE vector iff b.ndim == 1, otherwise a stack of matrices). A handler that reshapes an
+# operand first (adds / drops an axis, treats (..., M) as a stack of vectors) asks NumPy for a different computation. The pair of operand
+# shapes is a discrete axis; Tier-2 kernels are uninterpreted functions indexed by routine, bound arguments and PAYLOAD SHAPES, so a
+# different shape reaching the routine is a different function (and a different result shape).
+_M2 = [[2, 1], [1, 3]], [[1, 2], [3, 1]], [[1, 1], [0, 2]], [[3, 1], [2, 1]]
+
+
+def _stackpat(shape):
+    """a regular (every matrix / vector non-degenerate) concrete pattern of the given shape"""
+    shape = tuple(shape)
+    if len(shape) >= 2 and shape[-2:] == (2, 2):
+        n = int(np.prod(shape[:-2], dtype=int))
+        return np.array([_M2[i % 4] for i in range(n)], dtype=float).reshape(shape)
+    n = int(np.prod(shape, dtype=int))
+    return (np.arange(1, n + 1, dtype=float) * np.where(np.arange(n) % 3 == 2, -1.0, 1.0) + (np.arange(n) // 2)).reshape(shape)
+
+
+def _P(E, name, shape, g="L"):
+    return E.q(name, g, pattern=_stackpat(shape))
+
+
+_SOLVE_PAIRS = [  # (a shape, b shape, quick)
+    ((2, 2, 2), (2, 2), True), ((2, 2, 2), (2,), True), ((2, 2, 2), (2, 2, 1), True), ((2, 2, 2), (2, 1), False), ((2, 2, 2), (2, 2, 2), False),
+    ((2, 2, 2), (1, 2, 2), False), ((2, 2, 2), (2, 3), False), ((3, 2, 2), (3, 2), True), ((3, 2, 2), (2,), False), ((3, 2, 2), (2, 3), True),
+    ((3, 2, 2), (3, 2, 1), False), ((1, 2, 2), (2, 2), True), ((1, 2, 2), (1, 2), False), ((2, 2), (2, 1), True), ((2, 2), (2, 3), False),
+    ((2, 2), (3, 2, 1), True), ((2, 2), (2, 2, 2), False), ((2, 2, 2, 2), (2, 2, 2), False), ((2, 1, 2, 2), (2, 2), False)]
+_STACK1 = [  # LAPACK / matrix functions of ONE operand: (name, key, call on (N, a), tier)
+    ("np.linalg.det", "numpy.linalg.det", lambda N, a: N.linalg.det(a), 2),
+    ("np.linalg.inv", "numpy.linalg.inv", lambda N, a: N.linalg.inv(a), 2),
+    ("np.linalg.pinv", "numpy.linalg.pinv", lambda N, a: N.linalg.pinv(a), 2),
+    ("np.linalg.eig", "numpy.linalg.eig", lambda N, a: N.linalg.eig(a), 2),
+    ("np.linalg.eigh", "numpy.linalg.eigh", lambda N, a: N.linalg.eigh(a), 2),
+    ("np.linalg.eigvals", "numpy.linalg.eigvals", lambda N, a: N.linalg.eigvals(a), 2),
+    ("np.linalg.eigvalsh", "numpy.linalg.eigvalsh", lambda N, a: N.linalg.eigvalsh(a, "U"), 2),
+    ("np.linalg.svd", "numpy.linalg.svd", lambda N, a: N.linalg.svd(a), 2),
+    ("np.linalg.svd-values", "numpy.linalg.svd", lambda N, a: N.linalg.svd(a, compute_uv=False), 2),
+    ("np.linalg.norm-axes", "numpy.linalg.norm", lambda N, a: N.linalg.norm(a, "fro", (-2, -1)), 1),
+    ("np.linalg.matrix_norm", "numpy.linalg.matrix_norm", lambda N, a: N.linalg.matrix_norm(a), 1),
+    ("np.linalg.matrix_power", "numpy.linalg.matrix_power", lambda N, a: N.linalg.matrix_power(a, 2), 1),
+    ("np.linalg.matrix_transpose", "numpy.linalg.matrix_transpose", lambda N, a: N.linalg.matrix_transpose(a), 1),
+    ("np.linalg.trace", "numpy.linalg.trace", lambda N, a: N.linalg.trace(a), 1),
+    ("np.linalg.diagonal", "numpy.linalg.diagonal", lambda N, a: N.linalg.diagonal(a), 1),
+    ("np.linalg.tensorinv", "numpy.linalg.tensorinv", lambda N, a: N.linalg.tensorinv(a, ind=1), 2),
+]
+_STACK1_SHAPES = [((2, 2, 2), True), ((1, 2, 2), True), ((3, 2, 2), False), ((2, 1, 2, 2), False)]
+_STACK2 = [  # the matmul family: (name, key, call on (N, a, b)), real object-dtype kernels (Tier 1)
+    ("np.matmul", "numpy.matmul", lambda N, a, b: N.matmul(a, b)),
+    ("op.matmul", "ndarray.__matmul__", lambda N, a, b: a @ b),
+    ("np.linalg.matmul", "numpy.linalg.matmul", lambda N, a, b: N.linalg.matmul(a, b)),
+    ("np.vecdot", "numpy.vecdot", lambda N, a, b: N.vecdot(a, b)),
+    ("np.linalg.vecdot", "numpy.linalg.vecdot", lambda N, a, b: N.linalg.vecdot(a, b)),
+    ("np.dot", "numpy.dot", lambda N, a, b: N.dot(a, b)),
+    ("np.inner", "numpy.inner", lambda N, a, b: N.inner(a, b)),
+    ("np.tensordot", "numpy.tensordot", lambda N, a, b: N.tensordot(a, b, 1)),
+    ("np.linalg.multi_dot", "numpy.linalg.multi_dot", lambda N, a, b: N.linalg.multi_dot([a, b])),
+    ("np.einsum-stack", "numpy.einsum", lambda N, a, b: N.einsum("...ij,...j->...i", a, b)),
+]
+_MM_PAIRS = [((2, 2, 2), (2, 2), True), ((2, 2, 2), (2,), True), ((2, 2), (2, 2, 2), False), ((2,), (2, 2, 2), False), ((2, 2, 2), (2, 2, 2), True),
+             ((1, 2, 2), (2, 2, 2), False), ((2, 2, 2), (2, 2, 1), False)]
+
+
+def stack_templates(tier):
+    out = []
+    sh = lambda s: "x".join(map(str, s))
+    for sa, sb, quick in _SOLVE_PAIRS:
+        if tier == "quick" and not quick:
+            continue
+        for gb in (("T", "bare") if quick else ("T",)):
+            out.append(Tpl(f"stack/np.linalg.solve/{sh(sa)}-{sh(sb)}" + ("" if gb == "T" else "/bare-b"), "numpy.linalg.solve",
+                           (lambda sa=sa, sb=sb, gb=gb: lambda N, E: N.linalg.solve(_P(E, "a", sa), _P(E, "b", sb, gb)))(),
+                           groups=("L", "T"), c07=False, tier=2, quick=quick))
+    for name, key, fn, tr in _STACK1:
+        for s, quick in _STACK1_SHAPES:
+            if (tier == "quick" and not quick) or (name == "np.linalg.tensorinv" and s != (2, 2, 2)):
+                continue
+            out.append(Tpl(f"stack/{name}/{sh(s)}", key, (lambda fn=fn, s=s: lambda N, E: fn(N, _P(E, "a", s)))(), groups=("L",), c07=False, tier=tr, quick=quick))
+            # NumPy: "matrix_power not supported for stacks of object arrays" - typed buffers only
+            out[-1].typed_only = name == "np.linalg.matrix_power"
+    for name, key, fn in _STACK2:
+        for sa, sb, quick in _MM_PAIRS:
+            if tier == "quick" and not quick:
+                continue
+            out.append(Tpl(f"stack/{name}/{sh(sa)}-{sh(sb)}", key,
+                           (lambda fn=fn, sa=sa, sb=sb: lambda N, E: fn(N, E.q("a", "L", sa), E.q("b", "T", sb)))(), groups=("L", "T"), c07=False, quick=quick))
+    return out
+
+
+_NO_SPELL = ("rank/", "alias/", "sweep/", "mix/", "round/", "stack/")
+
+
+def spelling_templates(tier, base):
+    out = []
+    for t in base:
+        if t.name.startswith(_NO_SPELL):
+            continue
+        for mode in SPELLINGS:
+            if spelling_changes(t, mode):
+                out.append(spelled(t, mode))
+    return out
+
+
 def cases(tier, mods):
     check_names(mods, NAMES)
     install_numpy_patches()
-    sel = select(tier, "c06") + alias_templates(tier)
-    typed_sel, sel = sel, [t for t in sel if not getattr(t, "typed_only", False)]
-    ints = [t for t in sel if t.tier == 1 and not t.name.startswith("sweep/") and t.key not in INT_SKIP]
+    extra = pair_templates(tier) + stack_templates(tier)
+    spell = spelling_templates(tier, select(tier, "c06") + extra)
+    base = select(tier, "c06") + alias_templates(tier)
+    sel = base + extra + spell
+    typed_sel, sel = base + extra, [t for t in sel if not getattr(t, "typed_only", False)]
+    ints = [t for t in base if t.tier == 1 and not t.name.startswith("sweep/") and t.key not in INT_SKIP and not getattr(t, "typed_only", False)]
     nans = [(t, m) for t in ints for m in NAN_MASKS[tier] if m in ("n0", "nl") or operand_count(t) >= 2]
     return ([make_case(t) for t in sel] + [make_typed_case(t, tier) for t in typed_sel]
             + [make_int_case(t, dt) for dt in INT_DTYPES[tier] for t in ints]
@@ -906,6 +1217,11 @@ def coverage_extra(results, tier):
                              paths_cut_engine_limit=sum(r["outcomes"].get("unsupported", 0) for r in nans),
                              cases_cut_on_every_path=sorted(r["id"] for r in nans if r["paths"] and r["outcomes"].get("unsupported", 0) == r["paths"]),
                              decided_by="z3, all real values of the finite elements; NaN positions enumerated (A13)")
+    real = [r for r in results if fam(r) == "real" and "@after" not in r["id"]]
+    out["spelling_family"] = dict(cases={m: len([r for r in real if r["id"].startswith(f"C06/spell/{m}/")]) for m in SPELLINGS}, spellings=list(SPELLINGS),
+                                  two_neighbour_call_forms=len(PAIRS), derived="mechanically from inspect.signature of the NumPy function; dry run decides whether a spelling differs")
+    out["stack_family"] = dict(cases=len([r for r in real if r["id"].startswith("C06/stack/")]), solve_shape_pairs=len(_SOLVE_PAIRS),
+                               matrix_functions=len(_STACK1), stack_shapes=[s for s, _ in _STACK1_SHAPES], matmul_family=len(_STACK2), matmul_shape_pairs=len(_MM_PAIRS))
     out["alias_family"] = dict(cases=len([r for r in results if "/alias/" in r["id"] and "@after" not in r["id"]]), relations=list(RELATIONS) + ["out"],
                                two_operand_functions=len(ALIAS2), out_alias_forms=len(ALIAS_OUT))
     out["typed_family"]["non_finite_value_sets"] = TYPED_NONFINITE[tier]
